@@ -553,6 +553,8 @@ type Layout struct {
 	Open   string // after {
 	Indent bool
 	Comma  bool
+	// TokenNL: every token on a line of its own (a name is then the last thing on its line, whatever follows it)
+	TokenNL bool
 }
 
 var Layouts = []Layout{
@@ -561,6 +563,54 @@ var Layouts = []Layout{
 	{Sep: ",\n", Open: "\n", Indent: true, Comma: true},
 	{Sep: "\r\n", Open: "\r\n", Indent: true},
 	{Sep: " # c\n", Open: " # open\n", Indent: true},
+	{TokenNL: true},
+}
+
+// TokenPerLine puts every token of a document on a line of its own. "$name", "@name" and "..." stay in one piece,
+// string literals are kept as they are.
+func TokenPerLine(text string) string {
+	var toks []string
+	isName := func(c byte) bool {
+		return c == '_' || c == '.' || c == '-' || c == '+' || ('0' <= c && c <= '9') || ('a' <= c && c <= 'z') || ('A' <= c && c <= 'Z')
+	}
+	for i := 0; i < len(text); {
+		c := text[i]
+		switch {
+		case c == ' ' || c == '\t' || c == '\n' || c == '\r' || c == ',':
+			i++
+		case c == '#':
+			for i < len(text) && text[i] != '\n' {
+				i++
+			}
+		case c == '"':
+			j := i + 1
+			for j < len(text) && text[j] != '"' {
+				if text[j] == '\\' {
+					j++
+				}
+				j++
+			}
+			if j < len(text) {
+				j++
+			}
+			toks = append(toks, text[i:j])
+			i = j
+		case strings.HasPrefix(text[i:], "..."):
+			toks = append(toks, "...")
+			i += 3
+		case c == '$' || c == '@' || isName(c):
+			j := i + 1
+			for j < len(text) && isName(text[j]) {
+				j++
+			}
+			toks = append(toks, text[i:j])
+			i = j
+		default:
+			toks = append(toks, string(c))
+			i++
+		}
+	}
+	return strings.Join(toks, "\n") + "\n"
 }
 
 type renderer struct {
@@ -654,6 +704,9 @@ func (r *renderer) sels(sels []Sel, d int) {
 
 // Text renders the document in the given layout.
 func (doc *Doc) Text(lo Layout) string {
+	if lo.TokenNL {
+		return TokenPerLine(doc.Text(Layouts[0]))
+	}
 	r := &renderer{lo: lo}
 	for i, op := range doc.Ops {
 		if i > 0 {
